@@ -103,3 +103,34 @@ Proof.
   destruct (all_blocks_spec cells pw Hn mcs blocks Eb) as [dss [F [Hb Hl]]].
   exists dss. split; [exact F|]. inversion H. subst blocks. split; [now rewrite Hl | exact Hl].
 Qed.
+
+(* ---- a composition that is asked for is written ---- *)
+Lemma concat_str_app a b : concat_str (a ++ b) = (concat_str a ++ concat_str b)%string.
+Proof. induction a as [|x a IH]; simpl; [reflexivity | now rewrite IH, sapp_assoc]. Qed.
+
+Lemma blocks_of_in mcs dss pw cells mc d :
+  Forall2 (fun mc ds => NoDup ds /\ forall d, In d ds <-> asks (k_key mc) cells d) mcs dss ->
+  In mc mcs -> asks (k_key mc) cells d -> In (block_text mc pw d) (blocks_of mcs dss pw).
+Proof.
+  intros F. induction F as [|m ds mcs dss [_ Hds] _ IH]; intros Hin Ha; [destruct Hin|].
+  simpl. apply in_or_app. destruct Hin as [->|Hin].
+  - left. apply in_map. now apply Hds.
+  - right. auto.
+Qed.
+
+Lemma split5 (a b c d e L1 x L2 tr : string) :
+  (a ++ b ++ c ++ d ++ e ++ (L1 ++ x ++ L2) ++ tr = (a ++ b ++ c ++ d ++ e ++ L1) ++ x ++ L2 ++ tr)%string.
+Proof. rewrite !sapp_assoc. reflexivity. Qed.
+
+(* the text holds the block of every (card, density) pair a live cell asks for *)
+Theorem block_written mcs cells pw text mc d :
+  write_compositions mcs cells pw = Ok text -> dens_normal cells ->
+  In mc mcs -> asks (k_key mc) cells d ->
+  exists pre post, text = (pre ++ block_text mc pw d ++ post)%string.
+Proof.
+  intros H Hn Hin Ha. destruct (write_compositions_spec mcs cells pw text H Hn) as [dss [F [Ht _]]].
+  pose proof (blocks_of_in mcs dss pw cells mc d F Hin Ha) as Hb.
+  apply in_split in Hb. destruct Hb as [l1 [l2 Hb]].
+  rewrite Hb, concat_str_app in Ht. cbn [concat_str] in Ht. subst text.
+  eexists. eexists. apply split5.
+Qed.
